@@ -293,6 +293,12 @@ fn parse_bulk(out: &mut impl Write, alphabet: &[String], prefix: &str, rest: usi
         out.write_all(l.as_bytes()).unwrap();
         out.write_all(b"\n").unwrap();
         count += 1;
+        if count % 4096 == 0 {
+            // the watchdog limits one parse, not the whole enumeration
+            unsafe {
+                libc::alarm(WATCHDOG_S);
+            }
+        }
         // increment
         let mut k = rest;
         loop {
